@@ -296,6 +296,22 @@ def check(case):
     if plain is None:
         return
 
+    if np.isfinite(plain) and s['kind'] in ('indiv', 'hier'):
+        # a second, newly built object whose FIRST evaluation is the one with sensitivities
+        with case.clause('s1_first_on_new_object'):
+            if s['kind'] == 'indiv':
+                o2 = llbuild.build_ll(s['ll'])
+                if s['prior'] is not None:
+                    o2 = chi.LogPosterior(o2, llbuild.build_prior(s['prior']))
+            else:
+                o2 = hbuild.build_hier(s)
+                if s['prior'] is not None:
+                    o2 = chi.HierarchicalLogPosterior(o2, llbuild.build_prior(s['prior']))
+            sc2, g2 = o2.evaluateS1(x.copy())
+            case.close(sc2, plain, rtol=1e-10, what='score of evaluateS1 as the first evaluation of a new object vs plain '
+                                                    'evaluation of another')
+            case.close(o2(x.copy()), plain, rtol=1e-12, what='plain evaluation after a first evaluation with sensitivities')
+
     if np.isfinite(plain) and s['kind'] == 'sbml':
         with case.clause('s1_first_on_enabled_model'):
             sc_s, g_s = obj_s.evaluateS1(x.copy())
@@ -311,6 +327,8 @@ def check(case):
             return
         with case.clause('s1_score'):
             case.close(sc, plain, rtol=1e-10, what='score returned with the sensitivities vs plain evaluation')
+            case.close(obj(x.copy()), plain, rtol=1e-12, atol=1e-12 if s['kind'] == 'sbml' else 0.0,
+                       what='plain evaluation repeated after an evaluation with sensitivities')
         # the same point evaluated again (and again): same score, same gradient, and the arrays returned earlier keep
         # their values
         with case.clause('s1_repeat'):
